@@ -103,3 +103,67 @@ func (c *Ctx) enclosingSwitch(fi *FuncInfo, cc *ast.CaseClause) (*ast.SwitchStmt
 	})
 	return found, found != nil
 }
+
+// R-ENFORCE-UTF8-IMPL: strs.EnforceUTF8 decides whether a string field of an
+// editions file is validated by asking the descriptor for an EnforceUTF8()
+// method (the resolved utf8_validation feature); a descriptor type without
+// that method falls through to `Syntax() == Proto3`, which is false for
+// editions — the field is then never validated, whatever its feature says.
+// Every concrete FieldDescriptor implementation that can describe an editions
+// field must therefore implement EnforceUTF8.
+func (c *Ctx) ruleEnforceUTF8Impl(rule string, floor int) {
+	R, P := c.R, c.P
+	R.Rule(rule, "every concrete type of the module that implements protoreflect.FieldDescriptor and can describe an editions field has an EnforceUTF8() bool method, which strs.EnforceUTF8 consults (placeholder descriptors excepted: they describe unresolved references, never a field with a value)", floor)
+	fdIface := descIfaceNamed(P, "FieldDescriptor")
+	if fdIface == nil || c.need(rule, "internal/strs.EnforceUTF8") == nil {
+		if fdIface == nil {
+			R.Unk(rule, "protoreflect.FieldDescriptor", "", "interface not found")
+		}
+		return
+	}
+	for _, pk := range P.Pkgs {
+		if strings.Contains(pk.PkgPath, "/testprotos") || strings.Contains(pk.PkgPath, "/cmd/") {
+			continue
+		}
+		scope := pk.Types.Scope()
+		for _, nm := range scope.Names() {
+			tn, ok := scope.Lookup(nm).(*types.TypeName)
+			if !ok || tn.IsAlias() {
+				continue
+			}
+			if _, isStruct := tn.Type().Underlying().(*types.Struct); !isStruct {
+				continue
+			}
+			pt := types.NewPointer(tn.Type())
+			if !types.Implements(pt, fdIface) && !types.Implements(tn.Type(), fdIface) {
+				continue
+			}
+			construct := pk.PkgPath[len(modPath)+1:] + "." + nm
+			if strings.HasPrefix(nm, "Placeholder") || strings.HasPrefix(nm, "placeholder") {
+				R.Exempt(rule, construct, P.PosOf(tn.Pos()), "placeholder for an unresolved reference; never the descriptor of a field holding a value")
+				continue
+			}
+			ms := types.NewMethodSet(pt)
+			has := false
+			for i := 0; i < ms.Len(); i++ {
+				if ms.At(i).Obj().Name() == "EnforceUTF8" {
+					has = true
+				}
+			}
+			R.Check(has, rule, construct, P.PosOf(tn.Pos()), "implements EnforceUTF8()", "this FieldDescriptor implementation has no EnforceUTF8() method: for a field of an editions file strs.EnforceUTF8 falls back to `Syntax() == Proto3` and reports false, so string values described through this type are never UTF-8 validated even with utf8_validation = VERIFY")
+		}
+	}
+}
+
+func descIfaceNamed(P *Program, name string) *types.Interface {
+	pk := P.Pkg("reflect/protoreflect")
+	if pk == nil {
+		return nil
+	}
+	tn, ok := pk.Types.Scope().Lookup(name).(*types.TypeName)
+	if !ok {
+		return nil
+	}
+	it, _ := tn.Type().Underlying().(*types.Interface)
+	return it
+}
